@@ -16,6 +16,9 @@ primitives at execution time (signatures are randomised, keys are per run).
   hello c=<n> ver= rid= auth= params= type= url= u.*= v1= pok= t.*= rnd= b.*=
   msg c=<n> ty=<type> shape=<undecodable|invalid|valid>
   bye c=<n>
+  rrace c=<n> rid=priv:<k> end=<bye|expire> o=<n|-> first=<resume|end|free>
+
+Implementation lines of the ops after `start`: `<reply> ; S=<sessions> ; K=<Hub.clients> ; E=<Hub.expectHelloClients>`.
 -/
 namespace SigModel.Driver.C01
 open SigModel.Proto SigModel.Auth
@@ -155,11 +158,52 @@ def parseSessions (tok : String) : Option (List Sess) :=
     let body := dropS 2 tok
     if body == "-" then some [] else (body.splitOn ",").mapM parseSess
 
-/-- `<reply…> ; S=… || k=v …` -/
+/-- `<reply…> ; S=… ; K=… ; E=… || k=v …` -/
 def splitImpl (impl : List String) : List String × List String × KV :=
   let obs := impl.takeWhile (· ≠ "||")
   let ora := (impl.dropWhile (· ≠ "||")).drop 1
-  (obs.takeWhile (· ≠ ";"), (obs.dropWhile (· ≠ ";")).drop 1, kvs ora)
+  (obs.takeWhile (· ≠ ";"), ((obs.dropWhile (· ≠ ";")).drop 1).filter (· ≠ ";"), kvs ora)
+
+/-- `Hub.clients` as the sequential model has it: the connection of every session that has one -/
+def modelClients (h : Hub) : List (Nat × Nat) :=
+  (h.sessions.filterMap (fun s => s.conn.map (fun c => (c, s.sid)))).mergeSort (fun a b => a.1 ≤ b.1)
+
+/-- `Hub.expectHelloClients` as the sequential model has it: the open connections without session -/
+def modelExpect (h : Hub) (skip : Option Nat) : List Nat :=
+  ((h.conns.map (·.1)).filter (fun c => (h.sessionOf c).isNone && skip ≠ some c)).mergeSort (fun a b => a ≤ b)
+
+def showClients (ks : List (Nat × Nat)) : String :=
+  "K=" ++ (if ks.isEmpty then "-" else ",".intercalate (ks.map (fun k => s!"{k.1}:{k.2}")))
+
+def showExpect (es : List Nat) : String :=
+  "E=" ++ (if es.isEmpty then "-" else ",".intercalate (es.map toString))
+
+def showTables (h : Hub) (skip : Option Nat) : String :=
+  showSessions h.sessions ++ " ; " ++ showClients (modelClients h) ++ " ; " ++ showExpect (modelExpect h skip)
+
+/-- `K=<conn>:<sid>[!],…` -/
+def parseClients (tok : String) : Option (List (Nat × Nat × Bool)) :=
+  if !hasPrefix "K=" tok then none
+  else
+    let body := dropS 2 tok
+    if body == "-" then some []
+    else (body.splitOn ",").mapM (fun e =>
+      let bad := e.toList.getLast? == some '!'
+      let e' := if bad then String.ofList e.toList.dropLast else e
+      match e'.splitOn ":" with
+      | [c, sid] => do some ((← toNat? c), (← toNat? sid), bad)
+      | _ => none)
+
+/-- the observation at rest: `S=…` and, when present, `K=…` -/
+def parseObs (reply : Reply) (toks : List String) : Option Obs :=
+  match toks with
+  | s :: rest => do
+    let ss ← parseSessions s
+    let ks ← match rest with
+      | k :: _ => parseClients k
+      | [] => some []
+    some { reply := reply, sessions := ss, clients := ks }
+  | [] => none
 
 structure St where
   cfg : Cfg := {}
@@ -173,6 +217,47 @@ def addBackend (hosts : List (String × List Backend)) (host : String) (b : Back
   else hosts ++ [(host, [b])]
 
 def now0 : Int := 0
+
+/-- `rrace`: a hello with the resume id of session `k` on connection `c` while that session ends.  The
+sequential model has no order for the two; both orders (and the overlap: attached, then ended) leave the same
+tables, and the reply to `c` is one of `hello:k`, `error:no_such_session`, nothing — the model's line takes the
+implementation's reply if it is one of them. -/
+def race (st : St) (kv ora : KV) (replyToks sessToks : List String) : St × String × String :=
+  let h := st.hub
+  let c := getN kv "c"
+  let m := parseHello kv ora
+  let o := toNat? (get kv "o")
+  let en := get kv "end"
+  let target := m.resume.exact.bind (fun sid => h.sessions.find? (fun s => s.sid = sid))
+  let okPre := h.isOpen c && (h.sessionOf c).isNone &&
+    (match target with
+     | some s =>
+       if en == "bye" then (match o with | some p => s.conn == some p && p != c && h.isOpen p | none => false)
+       else if en == "expire" then s.conn.isNone
+       else false
+     | none => false)
+  if en != "bye" && en != "expire" then (st, "bad-op", "na")
+  else
+  match target, okPre with
+  | some s, true =>
+    let blocked := (Throttle.check h.thr now0 (h.tkey c) "HelloResume").2
+    let h' := raceRest now0 h c s.sid (if en == "bye" then o else none)
+    let allowed := if blocked then ["error:" ++ enc (errCode "TooManyRequests")]
+      else if !m.resume.decodes then ["error:" ++ enc (errCode "NoSuchSession")]
+      else ["none", s!"hello:{s.sid}", "error:" ++ enc (errCode "NoSuchSession")]
+    let got := " ".intercalate replyToks
+    let reply := if allowed.contains got then got else allowed.headD "none"
+    let out := reply ++ " ; " ++ showTables h' (some c)
+    let (j', v) :=
+      match parseObs .ignored sessToks with
+      | some obs => st.judge.observeRace s.sid (got == s!"hello:{s.sid}") obs
+      | none => (st.judge, "na")
+    ({ st with hub := h', judge := j' }, out, v)
+  | _, _ =>
+    let v := match parseObs .ignored sessToks with
+      | some obs => if obs.dangling then "violated:connection-kept-for-a-session-that-is-not-live" else "na"
+      | none => "na"
+    (st, "skip ; " ++ showTables h none, v)
 
 def step (st : St) (op impl : List String) : St × String × String :=
   match op with
@@ -196,18 +281,17 @@ def step (st : St) (op impl : List String) : St × String × String :=
     else if !st.started then (st, "bad-op", "na")
     else
       let (replyToks, sessToks, ora) := splitImpl impl
+      if verb == "rrace" then race st kv ora replyToks sessToks
+      else
       match parseOp verb kv ora with
       | none => (st, "bad-op", "na")
       | some o =>
         let (h', r) := Auth.step st.cfg st.env now0 st.hub o
-        let out := showReply r ++ " ; " ++ showSessions h'.sessions
+        let out := showReply r ++ " ; " ++ showTables h' none
         let (j', v) :=
-          match parseReply replyToks, sessToks with
-          | some ir, [s] =>
-            match parseSessions s with
-            | some ss => st.judge.observe st.cfg st.env now0 o { reply := ir, sessions := ss }
-            | none => (st.judge, "na")
-          | _, _ => (st.judge, "na")
+          match (parseReply replyToks).bind (fun ir => parseObs ir sessToks) with
+          | some obs => st.judge.observe st.cfg st.env now0 o obs
+          | none => (st.judge, "na")
         ({ st with hub := h', judge := j' }, out, v)
 
 end SigModel.Driver.C01
